@@ -46,9 +46,15 @@ def cases(seed, tier, path):
         f.write(json.dumps({"seed": seed, "idx": n, "kind": "ingest-fault", "mode": "trace", "rows": 600}) + "\n")
         n += 1
         kill_kinds = ["commit-existing", "prune", "merge", "fetch", "pull"] if tier == "quick" else KINDS
-        for k in kill_kinds:
-            f.write(json.dumps({"seed": seed, "idx": n, "kind": k, "mode": "kill", "rows": 300}) + "\n")
-            n += 1
+        for rep in range(1 if tier == "quick" else 2):
+            for k in kill_kinds:
+                for rows in ((300,) if tier == "quick" else (1, 300, 700)):
+                    f.write(json.dumps({"seed": seed + rep, "idx": n, "kind": k, "mode": "kill", "rows": rows}) + "\n")
+                    n += 1
+        if tier != "quick":
+            for rep in range(3):
+                f.write(json.dumps({"seed": seed + 1 + rep, "idx": n, "kind": "ingest-fault", "mode": "trace", "rows": 300 + 300 * rep}) + "\n")
+                n += 1
     return n
 
 
